@@ -215,6 +215,15 @@ def validate_shards(ctx, tcfg, traces, tag, nshards, timeout):
     return rej, sum(len(e) for e in execs)
 
 
+def keep(ctx, name, recs):
+    """violation files live outside out/C16 (which every run, including --replay, wipes)"""
+    d = ctx.out.rstrip("/") + "_violations"
+    os.makedirs(d, exist_ok=True)
+    p = os.path.join(d, name)
+    vlib.write_ndjson(p, recs)
+    return p
+
+
 def run(ctx):
     q = ctx.quick
     known = {k for k in ctx.known if k in MASKABLE}
@@ -316,8 +325,7 @@ def run(ctx):
             if key in reported:
                 continue
             reported.add(key)
-            rp = ctx.path(f"violation_{tag}_{len(ctx.violations)}.ndjson")
-            vlib.write_ndjson(rp, x["records"])
+            rp = keep(ctx, f"violation_{tag}_{len(ctx.violations)}.ndjson", x["records"])
             ctx.violation(f"[{x['inv'] or 'trace rejected'}] suggested key={key}: {text}", rp)
     ctx.evaluations = nrec
 
@@ -369,4 +377,4 @@ def replay(ctx, path):
             if key in ctx.known:
                 ctx.known_finding(key, ctx.known[key])
             else:
-                ctx.violation(f"[{fl}] [{x['inv']}] suggested key={key}: {text}", x["path"])
+                ctx.violation(f"[{fl}] [{x['inv']}] suggested key={key}: {text}", keep(ctx, f"replay_{fl}_{len(ctx.violations)}.ndjson", x["records"]))
